@@ -916,6 +916,14 @@ where
     // TODO(maybe): Use !job_futures.is_empty() instead of server.is_running() in
     // the above loop.
     job_futures.fold((), |_, _| future::ready(())).await;
+    if !server.has_token() {
+        // We may hold no token here: the exit of our last job can be paid for
+        // by a cheat byte instead of a re-created token, and wait_all gives
+        // tokens away.  The job that ran us resumes with the token it lent us,
+        // so take one back before ending; ending with none would add a token
+        // to the system ("expected N tokens; found N+1").
+        server.ensure_token_or_cheat("exit", &mut cheat).await?;
+    }
     result.replace(Ok(()))
 }
 
